@@ -137,7 +137,26 @@ func ruleDEDUP1(c *Ctx) {
 						keysOK, badKey = false, k+" (type has another field "+f.Name()+")"
 					}
 				}
-			case name == "ImmutableMap" && k == "modName":
+			case name == "ImmutableMap" && func() bool {
+				// the key is a variable defined from inferModuleName(<the constant>)
+				id, ok := ast.Unparen(ix.Index).(*ast.Ident)
+				if !ok {
+					return false
+				}
+				o := p.TypesInfo.Uses[id]
+				return containsNode(cc, func(m ast.Node) bool {
+					as, ok := m.(*ast.AssignStmt)
+					if !ok || len(as.Lhs) != 1 || len(as.Rhs) != 1 {
+						return false
+					}
+					lid, ok := as.Lhs[0].(*ast.Ident)
+					if !ok || p.TypesInfo.Defs[lid] != o {
+						return false
+					}
+					call, ok := as.Rhs[0].(*ast.CallExpr)
+					return ok && Callee(p, call) != nil && Callee(p, call).Name() == "inferModuleName"
+				})
+			}():
 			default:
 				keysOK, badKey = false, k
 			}
@@ -329,7 +348,16 @@ func ruleGOB(c *Ctx) {
 		})
 		decOK := containsNode(dec.Body, func(n ast.Node) bool {
 			as, ok := n.(*ast.AssignStmt)
-			return ok && len(as.Lhs) == 1 && strings.HasSuffix(w.Src(as.Lhs[0]), ".value") && strings.ReplaceAll(w.Src(as.Rhs[0]), " ", "") == "b[0]==1"
+			if !ok || len(as.Lhs) != 1 || !strings.HasSuffix(w.Src(as.Lhs[0]), ".value") {
+				return false
+			}
+			// <the byte-slice parameter>[0] == 1
+			b, ok := ast.Unparen(as.Rhs[0]).(*ast.BinaryExpr)
+			if !ok || b.Op != token.EQL {
+				return false
+			}
+			k, ok := ConstInt(p, b.Y)
+			return ok && k == 1 && isArgN(p, dec, b.X, 0)
 		})
 		c.check(encOK && decOK, "GOB.2/Bool-codec", enc, "true ↔ 1, false ↔ 0", "Bool's GobEncode/GobDecode are not inverse (true must encode as 1 and decode from 1)")
 	}
@@ -525,7 +553,7 @@ func ruleXCH(c *Ctx) {
 		// first assignment to res
 		var rhs ast.Expr
 		for _, s := range cc.Body {
-			if as, ok := s.(*ast.AssignStmt); ok && len(as.Lhs) == 1 && w.Src(as.Lhs[0]) == "res" && rhs == nil {
+			if as, ok := s.(*ast.AssignStmt); ok && len(as.Lhs) == 1 && rhs == nil && isObj(p, as.Lhs[0], resultVar(p, to)) {
 				rhs = as.Rhs[0]
 			}
 		}
@@ -834,4 +862,12 @@ func ruleCLONE1(c *Ctx) {
 		})
 		c.check(ok, "clone/bytecode-constants-fresh", bc, "Bytecode.Clone copies the constant slice", "Bytecode.Clone shares the Constants slice, which ReplaceBuiltinModule overwrites")
 	}
+}
+
+// resultVar: the function's single named result.
+func resultVar(p pkgT, fd *ast.FuncDecl) types.Object {
+	if fd.Type.Results == nil || len(fd.Type.Results.List) != 1 || len(fd.Type.Results.List[0].Names) != 1 {
+		return nil
+	}
+	return p.TypesInfo.Defs[fd.Type.Results.List[0].Names[0]]
 }
